@@ -286,7 +286,9 @@ def _conv_elem(x, dt):
     if isinstance(x, P):
       if x.is_const and x.cval.denominator == 1:
         return int(x.cval)
-      raise TypeError('symbolic value in an integer tensor: %r' % (x,))
+      if x.is_const:
+        raise TypeError('non-integral value in an integer tensor: %r' % (x,))
+      return x   # symbolic count (from casting symbolic booleans)
     if isinstance(x, (float, Fr)) and x != int(x):
       raise TypeError('non-integral %r for integer tensor' % (x,))
     return int(x)
@@ -844,7 +846,7 @@ def cast(x, dtype, name=None):
       if isinstance(a, B):
         if a.kind == 'const':
           return 1 if a.args else 0
-        return _IntSym(a)
+        return E.ite(a, P.const(1), P.const(0))   # symbolic 0/1 count (sums and comparisons only)
       if isinstance(a, P):
         return _float_to_int(a)
       return int(a)
